@@ -1870,6 +1870,12 @@ stream_decoder_mt_memconfig(void *coder_ptr, uint64_t *memusage,
 			return LZMA_MEMLIMIT_ERROR;
 
 		coder->memlimit_stop = new_memlimit;
+
+		// Keep memlimit_threading <= memlimit_stop like
+		// stream_decoder_mt_init() does. Otherwise the threaded
+		// mode could use more memory than the new hard limit.
+		if (coder->memlimit_threading > coder->memlimit_stop)
+			coder->memlimit_threading = coder->memlimit_stop;
 	}
 
 	return LZMA_OK;
